@@ -24,7 +24,10 @@ FX = "false" if MODEL == "coded" else "true"
 
 PRE_A = ("From Coq Require Import NArith PArith List Bool.\nImport ListNotations.\n"
          "From Cohdl Require Import Models.Temps.\n")
-PRE_B = common.COQ_HEADER + "From Cohdl Require Import Vhdl.DefAssign.\n"
+PRE_B = common.COQ_HEADER + "From Cohdl Require Import Vhdl.DefAssign Vhdl.DefAssignTyped.\n"
+
+SHAPES_DEF = ("Fixpoint shapes_of (l : list (positive * ty)) (x : positive) : option shp :=\n"
+              "  match l with [] => None | (i, t) :: r => if Pos.eqb i x then shape_of_ty t else shapes_of r x end.\n")
 
 # ---------------------------------------------------------------------------------------------
 # (a) synthetic IR trees
@@ -869,6 +872,23 @@ def source_grid(ck):
                                                                "self.e[self.ix - 1] <<= self.p", "await self.p",
                                                                "self.c <<= self.vin[self.ix + 1]"]]],
                       {"construct": "implicit-index", "shape": "states", "def_at": "compiler", "use_at": "same statement", "proc": "coro"}))
+    # ---- select_with: the result is an intermediate; without default it is defined only for the listed selector values
+    sw = [
+        ("default", ['self.c <<= cohdl.select_with(self.a, {"00": self.b, "01": self.p}, default=self.q)'], None),
+        ("exhaustive-no-default", ['self.c <<= cohdl.select_with(self.a, {"00": self.b, "01": self.p, "10": self.q, "11": self.b ^ self.p})'], None),
+        ("partial-no-default", ['self.c <<= cohdl.select_with(self.a, {"00": self.b, "01": self.p})'],
+         "the select_with result (no value for the unlisted selector values)"),
+        ("partial-no-default-bit", ['self.c <<= cohdl.select_with(self.p, {"1": self.b})'],
+         "the select_with result (no value for the unlisted selector value)"),
+        ("bit-exhaustive", ['self.c <<= cohdl.select_with(self.p, {"1": self.b, "0": self.q})'], None),
+        ("partial-no-default-stored", ['x = cohdl.select_with(self.a, {"10": self.b | self.p})', "self.c <<= x"],
+         "x (no value for the unlisted selector values)"),
+    ]
+    for nm, lines, bad in sw:
+        cnt[0] += 1
+        for kd in ("conc", "comb", "clk"):
+            progs.append(Prog(f"g{cnt[0]:04d}_{kd}", kd, [["rawx", lines, bad]],
+                              {"construct": "select-with", "shape": nm, "def_at": "selected arms", "use_at": "after", "proc": kd}))
     # ---- value branches (tests/invalid_builds/test_invalid_value_branch.py): a value selected by `a if c else b`
     A, B = "(self.b | self.p)", "(self.b & self.p)"
     vb = [
@@ -1066,6 +1086,8 @@ def part_b(ck):
                   "emitted VHDL left the parsed subset: " + str(e)[:120], {"name": name, "meta": meta, "vhdl": vhdl}, len(vhdl), True)
             return
         P = R.CoqPrinter(d)
+        # declared (id, type) of every signal: the typed rule prunes `when others` of cases whose choices are exhaustive
+        sig_term = "[" + "; ".join(f"({i + 1}%positive, {P.ty(sd.ty)})" for i, sd in enumerate(d.sigs)) + "]"
         for c in d.conc:
             if c[0] != "proc":
                 continue
@@ -1075,7 +1097,7 @@ def part_b(ck):
                 if v.proc == label and is_temp_name(v.name.split(".")[-1]):
                     tn.append(v.name.lower())
                     tix.append(i + 1)
-            term = f"({c_plist(tix)}, {P.stmts(c[3])})"
+            term = f"({sig_term}, {c_plist(tix)}, {P.stmts(c[3])})"
             da_cases.append((prog, name, label, frozenset(tn), c[3], term, meta, vhdl))
 
     for p in progs:
@@ -1134,8 +1156,8 @@ def part_b(ck):
 
     # def_assign on every emitted process, inside Coq
     terms = [c[5] for c in da_cases]
-    bad = set(common.coq_bad_indices(ck, "b_defassign", PRE_B, "list positive * stmt", terms,
-                                     "fun c => def_assign (fst c) (snd c)", shard=120)) if terms else set()
+    bad = set(common.coq_bad_indices(ck, "b_defassign", PRE_B + SHAPES_DEF, "list (positive * ty) * list positive * stmt", terms,
+                                     "fun c => def_assign_typed (shapes_of (fst (fst c))) (snd (fst c)) (snd c)", shard=120)) if terms else set()
     for i, (prog, name, label, tn, body, term, meta, vhdl) in enumerate(da_cases):
         ck.evaluations += 1
         ck.obligation(i not in bad)
